@@ -12,7 +12,7 @@ from symlas.stubs import SymFile
 from symlas.values import SymStr, SymInt, B, concat, fresh_int, fresh_bool
 from checks.common import Layout, blank_or_tab
 
-SPELLINGS = ["1", "2.5", "2.5e-3", ".5", "5.", "1e2", "-9", "7.25", "0", "-0.5", "1.25E-02", "3.0", "-3", "4E+1"]
+SPELLINGS = ["1", "2.5", ".5", "2.5e-3", "5.", "1e2", "-9", "7.25", "0", "-0.5", "1.25E-02", "3.0", "-3", "4E+1"]  # index 3: the second row of a two-column file
 AFTER = {"last": [], "P": ["~Parameter", "BHT.C 35 : t"], "O": ["~Other", "some text"], "X": ["~Xtra", "KEY. val : k"]}
 
 
@@ -39,7 +39,10 @@ def header(cols, declared=None, null="-9", wrap="NO", extra_well=()):
 
 
 def data_line(name, toks, pcap):
-    """Layout of one data line: pad tok pad tok ... pad (pads of blanks/tabs, >= 1 between tokens)"""
+    """Layout of one data line: pad tok pad tok ... pad (pads of blanks/tabs, >= 1 between tokens);
+    pcap 0: the concrete line with single blanks"""
+    if pcap == 0:
+        return " ".join(toks)
     segs = [{"name": "p0", "lo": 0, "hi": pcap, "cls": blank_or_tab}]
     for k, t in enumerate(toks):
         segs.append({"name": "t%d" % k, "lit": t})
@@ -90,7 +93,8 @@ def header_snapshot(las):
     return snap
 
 
-EXTRA_KINDS = ["none", "blank", "spaces", "comment"]
+EXTRA_KINDS = ["none", "blank", "spaces", "comment", "tab-comment"]
+EXTRA_TEXT = {"blank": "", "spaces": "  ", "comment": "# remark 1 2", "tab-comment": "\t# remark 1 2"}
 
 
 def build_data_section(rows, cols, pcap, after, extra_kind, extra_pos, crlf, final_newline, title="~ASCII"):
@@ -98,10 +102,10 @@ def build_data_section(rows, cols, pcap, after, extra_kind, extra_pos, crlf, fin
     lines = [title]
     for i in range(rows):
         if extra_kind != "none" and extra_pos == i:
-            lines.append({"blank": "", "spaces": "  ", "comment": "# remark 1 2"}[extra_kind])
+            lines.append(EXTRA_TEXT[extra_kind])
         lines.append(data_line("L%d" % i, [token(i, j, cols) for j in range(cols)], pcap))
     if extra_kind != "none" and extra_pos == rows:
-        lines.append({"blank": "", "spaces": "  ", "comment": "# remark 1 2"}[extra_kind])
+        lines.append(EXTRA_TEXT[extra_kind])
     lines += AFTER[after]
     return lines
 
@@ -111,10 +115,10 @@ def concrete_text(header_lines, rows, cols, pads, after, extra_kind, extra_pos, 
     lines = list(header_lines) + [title]
     for i in range(rows):
         if extra_kind != "none" and extra_pos == i:
-            lines.append({"blank": "", "spaces": "  ", "comment": "# remark 1 2"}[extra_kind])
+            lines.append(EXTRA_TEXT[extra_kind])
         lines.append(pads[i])
     if extra_kind != "none" and extra_pos == rows:
-        lines.append({"blank": "", "spaces": "  ", "comment": "# remark 1 2"}[extra_kind])
+        lines.append(EXTRA_TEXT[extra_kind])
     lines += AFTER[after]
     nl = "\r\n" if crlf else "\n"
     text = nl.join(lines)
